@@ -36,7 +36,7 @@ EXPLANATION = (
     "indexing in the Substructure coordinate view, and validation-before-mutation in add_atom."
 )
 ASSUMPTIONS = ["numpy.append / numpy.delete along axis 0 add / remove exactly the addressed row"]
-FLOORS = {"C05.R7": 2, "C05.R1": 8, "C05.R2": 1, "C05.R3": 1, "C05.R4": 5, "C05.R5": 1, "C05.R6": 1}
+FLOORS = {"C05.R8": 1, "C05.R7": 2, "C05.R1": 8, "C05.R2": 1, "C05.R3": 1, "C05.R4": 5, "C05.R5": 1, "C05.R6": 1}
 
 CHAIN = {
     "Promolecule": "molli.chem.atom:Promolecule",
@@ -75,6 +75,7 @@ def run(chk):
     r5_views(chk)
     r6_validate_first(chk, cls)
     r7_sibling_resolvers(chk, cls)
+    r8_membership(chk, cls)
 
 
 def _super_calls(fn, name):
@@ -380,6 +381,35 @@ def r6_validate_first(chk, cls):
                  f"`{short(late[0].ast, 60)}` can run after the atom was already appended: add_atom with a mis-shaped coordinate raises and leaves one atom without a coordinate row")
     else:
         chk.ok("C05.R6", key, f.where(), f"{len(raises)} validation raise(s), all before the first mutation")
+    # every override above it: its own container may only grow after the (fallible) super().add_atom returned
+    for owner, cont in ARRAY_OWNERS.items():
+        ci = cls[owner]
+        g = prog.method(ci, "add_atom")
+        if g is None or g.cls != ci or owner == "CartesianGeometry":
+            continue
+        cfg = CFG(g.node)
+        own = [n for n in cfg.nodes if n.kind == "stmt" and f"self.{cont}" in stored_paths(n.ast)]
+        sup = {n.id for n in cfg.nodes if n.kind == "stmt" and any(c in _super_calls(g.node, "add_atom") for c in walk_no_nested(n.ast) if isinstance(c, ast.Call))}
+        early = [n for n in own if cfg.reachable([n.id], labels={"next", "true", "false"}) & sup]
+        chk.decide(not early, "C05.R6", f"{g.key}:own-container-grows-after-super", g.where(early[0].ast if early else None),
+                   f"{cont} grows only after super().add_atom accepted the atom",
+                   f"`{short(early[0].ast, 60) if early else ''}` runs before super().add_atom, which rejects mis-shaped coordinates: after the ValueError {cont} has one entry more than there are atoms")
+
+
+def r8_membership(chk, cls):
+    """get_atom(Atom) must test membership in the atom list itself (a deleted atom keeps its parent pointer)"""
+    prog = chk.prog
+    ga = prog.method(cls["Promolecule"], "get_atom")
+    arms = [(n, c) for n, c in _type_cases(prog, ga) if n == "Atom"]
+    chk.require(len(arms) == 1, "get_atom: `case Atom()` not found")
+    c = arms[0][1]
+    p = ga.params()[1]
+    rets = [(g, r) for g in c.body if isinstance(g, ast.If) for r in g.body if isinstance(r, ast.Return)]
+    direct = [r for r in c.body if isinstance(r, ast.Return)]
+    ok = len(rets) == 1 and not direct and norm(rets[0][0].test) in (f"{p} in self.atoms", f"{p} in self._atoms") and norm(rets[0][1].value) == p
+    chk.decide(ok, "C05.R8", f"{ga.key}:atom-must-be-in-the-atom-list", ga.where(c.pattern), f"returns the atom only if `{p} in self.atoms`",
+               f"get_atom accepts an Atom under `{norm(rets[0][0].test) if rets else 'no test'}`: an atom that was deleted (its parent pointer is not cleared) is accepted again, "
+               "connect() then re-adopts it through append_atom without a coordinate row or a charge")
 
 
 def _type_cases(prog, f):
